@@ -213,6 +213,9 @@ func (ex *Exec) strEq(a, b StrV) *Term {
 			}
 		}
 	}
+	if r, ok := ex.strEqBytes(a, b); ok {
+		return r
+	}
 	fail("string comparison not decidable by the model: %s == %s", describe(a), describe(b))
 	return nil
 }
